@@ -1660,7 +1660,8 @@ def settle(ck, pd, reply, node_recs, check_syntax):
                 ok, msg = node_check(path)
                 ck.stat('node.check')
                 if not ok:
-                    judge.P('js_client[%s]: node --check fails: %s' % (label, msg.strip().splitlines()[-1] if msg.strip() else ''),
+                    why = [l for l in msg.splitlines() if 'Error' in l][:1] or msg.strip().splitlines()[-1:]
+                    judge.P('js_client[%s]: node --check fails: %s' % (label, why[0].strip() if why else ''),
                             {'kind': 'js_syntax', 'backend': 'js_client'}, stderr=msg)
             if not js_declared:
                 js_declared = {'Error', 'UserMessage', 'Timestamp'} | {x_js_name(dt) for ns in pd.api.namespaces.values()
